@@ -538,6 +538,318 @@ theorem parse_render (r : Report) (h : r.WF) : parse r.render = .ok (semText r) 
   rw [this, finish_run _ (secs_curFile _ _ (fun _ => rfl)), closeCur_secs]
   rfl
 
+/-! ### numbers that do not fit are rejected -/
+
+theorem lcount_noEol (l d : Dec) (hl : l.WF) (hd : d.WF) :
+    noEol (Rec.lcount l (.num d)).render := by
+  have k1 : noEol kLcount := by simp [kLcount, noEol, isEol]
+  simp only [Rec.render, noEol_append, noEol_cons, noEol_nil, and_true]
+  exact ⟨⟨⟨⟨k1, rfl⟩, Dec.noEol_render l hl⟩, rfl⟩, Dec.noEol_render d hd⟩
+
+theorem procStripped_lcount_overflow (a : Acc) (l d : Dec) (hl : l.WF) (hlv : l.val ≤ U32MAX)
+    (hd : d.WF) (hdv : U64MAX < d.val) :
+    procStripped a (Rec.lcount l (.num d)).render = .halt (.err "Parse") := by
+  have h1 : kLcount ≠ kFile := by decide
+  have h2 : kLcount ≠ kFunction := by decide
+  have e : (Rec.lcount l (.num d)).render = kLcount ++ 58 :: (l.render ++ 44 :: d.render) := by
+    simp [Rec.render]
+  unfold procStripped
+  rw [e, splitOnce_found 58 kLcount _ (by decide)]
+  simp only [h1, h2, if_false, if_true]
+  rw [splitOnce_found 44 l.render _ (Dec.not_mem_render l hl 44 rfl (by decide))]
+  simp only [parseUInt_render U32MAX l hl, hlv, if_true]
+  have hz : d.render ≠ tZero := fun hz => by
+    have := Dec.render_zero d hz; omega
+  have hnle : ¬ d.val ≤ U64MAX := by omega
+  simp [hz, Dec.head_render d hd, parseUInt_render U64MAX d hd, hnle, parseErr]
+
+theorem procStripped_lineno_overflow (a : Acc) (l : Dec) (c : Bytes) (hl : l.WF)
+    (hlv : U32MAX < l.val) :
+    procStripped a (kLcount ++ [58] ++ l.render ++ [44] ++ c) = .halt (.err "Parse") := by
+  have h1 : kLcount ≠ kFile := by decide
+  have h2 : kLcount ≠ kFunction := by decide
+  have e : kLcount ++ [58] ++ l.render ++ [44] ++ c = kLcount ++ 58 :: (l.render ++ 44 :: c) := by
+    simp
+  have hnle : ¬ l.val ≤ U32MAX := by omega
+  unfold procStripped
+  rw [e, splitOnce_found 58 kLcount _ (by decide)]
+  simp only [h1, h2, if_false, if_true]
+  rw [splitOnce_found 44 l.render _ (Dec.not_mem_render l hl 44 rfl (by decide))]
+  simp [parseUInt_render U32MAX l hl, hnle, parseErr]
+
+/-- a count ≥ 2^64 anywhere after a well-formed prefix makes the whole file an error -/
+theorem parse_overflow (r : Report) (h : r.WF) (l d : Dec) (k : Nat) (rest : Bytes)
+    (hl : l.WF) (hlv : l.val ≤ U32MAX) (hd : d.WF) (hdv : U64MAX < d.val) :
+    parse (r.render ++ ((Rec.lcount l (.num d)).render ++ eol k ++ rest)) = .err "Parse" := by
+  unfold parse
+  rw [runBytes_report r _ h, runBytes_line _ _ _ _ (lcount_noEol l d hl hd)]
+  simp only [stepLine, procLine]
+  rw [stripEol_append _ _ (lcount_noEol l d hl hd) (eol_allEol k),
+    procStripped_lcount_overflow _ l d hl hlv hd hdv, runBytes_halt]
+  rfl
+
+theorem digitsVal_le (bound acc : Nat) (ds : Bytes) (n : Nat) (ha : acc ≤ bound)
+    (h : digitsVal bound acc ds = some n) : n ≤ bound := by
+  induction ds generalizing acc with
+  | nil => simp [digitsVal] at h; omega
+  | cons d ds ih =>
+    simp only [digitsVal] at h
+    split at h
+    · split at h
+      · rename_i hv; exact ih _ hv h
+      · simp at h
+    · simp at h
+
+/-- whatever the text, an accepted number fits its type -/
+theorem parseUInt_le (bound : Nat) (s : Bytes) (n : Nat) (h : parseUInt bound s = some n) :
+    n ≤ bound := by
+  unfold parseUInt at h
+  split at h
+  · simp at h
+  · split at h
+    · split at h
+      · simp at h
+      · exact digitsVal_le _ _ _ _ (Nat.zero_le _) h
+    · exact digitsVal_le _ _ _ _ (Nat.zero_le _) h
+
+/-- canonical decimals (no sign, no leading zero): the token is "0" iff the value is 0 -/
+theorem canonical_zero (ds : Bytes) (hd : ∀ b ∈ ds, isDigit b = true)
+    (hc : ds = [48] ∨ (ds ≠ [] ∧ ds.head? ≠ some 48)) : ds ≠ [48] ↔ valOf ds ≠ 0 := by
+  rcases hc with rfl | ⟨hne, hh⟩
+  · simp [valOf, valFrom]
+  · cases ds with
+    | nil => exact absurd rfl hne
+    | cons x xs =>
+      have hx := hd x (by simp)
+      simp only [List.head?_cons, ne_eq, Option.some.injEq] at hh
+      have h1 : 1 ≤ x - 48 := by simp [isDigit] at hx; omega
+      have h2 := le_valFrom (0 * 10 + (x - 48)) xs
+      have h3 : valOf (x :: xs) = valFrom (0 * 10 + (x - 48)) xs := rfl
+      constructor
+      · intro _; omega
+      · intro _ e; simp at e; exact hh e.1
+
+/-! ### which sections are reported -/
+
+def hasLcount (s : FileSec) : Bool := s.recs.any fun l => (lcountOf l.r).isSome
+
+theorem filterMap_isEmpty {α β : Type} (f : α → Option β) (xs : List α) :
+    (xs.filterMap f).isEmpty = !(xs.any fun x => (f x).isSome) := by
+  induction xs with
+  | nil => rfl
+  | cons x xs ih =>
+    simp only [List.filterMap_cons, List.any_cons]
+    cases hf : f x <;> simp [ih]
+
+theorem semSec_name (s : FileSec) :
+    (semSec s).map (·.1) = if hasLcount s then some s.name else none := by
+  unfold semSec hasLcount
+  simp only [filterMap_isEmpty, List.any_map]
+  cases h : (s.recs.any fun l => (lcountOf l.r).isSome) <;> simp [Function.comp_def, h]
+
+theorem semText_names (r : Report) :
+    (semText r).map (·.1) = (r.secs.filter hasLcount).map (·.name) := by
+  unfold semText
+  induction r.secs with
+  | nil => rfl
+  | cons s ss ih =>
+    have := semSec_name s
+    simp only [List.filterMap_cons, List.filter_cons]
+    cases hs : semSec s with
+    | none =>
+      rw [hs] at this
+      cases hl : hasLcount s
+      · simpa [hl] using ih
+      · simp [hl] at this
+    | some v =>
+      rw [hs] at this
+      cases hl : hasLcount s
+      · simp [hl] at this
+      · simp [hl] at this
+        simp [hl, this, ih]
+
+/-! ### compositionality and the optional final newline -/
+
+theorem splitLines_ne_nil (x : Bytes) (h : x ≠ []) : splitLines x ≠ [] := by
+  cases x with
+  | nil => exact absurd rfl h
+  | cons b x =>
+    unfold splitLines
+    split
+    · simp
+    · split <;> simp
+
+theorem splitLines_append (x y : Bytes) (h : x = [] ∨ x.getLast? = some 10) :
+    splitLines (x ++ y) = splitLines x ++ splitLines y := by
+  induction x with
+  | nil => simp [splitLines]
+  | cons b x ih =>
+    have hx : x = [] ∨ x.getLast? = some 10 := by
+      cases x with
+      | nil => exact Or.inl rfl
+      | cons c x' =>
+        rcases h with h | h
+        · simp at h
+        · right; simpa [List.getLast?_cons_cons] using h
+    have ih' := ih hx
+    by_cases hb : b = 10
+    · subst hb; simp [splitLines, ih']
+    · have hne : x ≠ [] := by
+        intro e; subst e
+        rcases h with h | h
+        · simp at h
+        · simp at h; exact hb h
+      obtain ⟨l, ls, hls⟩ := List.exists_cons_of_ne_nil (splitLines_ne_nil x hne)
+      simp [splitLines, hb, ih', hls]
+
+/-- reading a concatenation whose first part ends at a line end continues from the state reached -/
+theorem runBytes_append (s : St) (x y : Bytes) (h : x = [] ∨ x.getLast? = some 10) :
+    runBytes s (x ++ y) = runBytes (runBytes s x) y := by
+  unfold runBytes runLines
+  rw [splitLines_append x y h, List.foldl_append]
+
+theorem stripEol_snoc_lf (l : Bytes) : stripEol (l ++ [10]) = stripEol l := by
+  induction l with
+  | nil => rfl
+  | cons b l ih => simp only [List.cons_append, stripEol, ih]
+
+theorem splitLines_cons_lf (bs : Bytes) : splitLines (10 :: bs) = [10] :: splitLines bs := by
+  rw [splitLines]; simp
+
+theorem splitLines_cons_ne (b : Nat) (bs : Bytes) (hb : b ≠ 10) (l : Bytes) (ls : List Bytes)
+    (h : splitLines bs = l :: ls) : splitLines (b :: bs) = (b :: l) :: ls := by
+  rw [splitLines]; simp [hb, h]
+
+theorem splitLines_snoc_lf (bs : Bytes) (hne : bs ≠ []) (hl : bs.getLast? ≠ some 10) :
+    ∃ ls l, splitLines bs = ls ++ [l] ∧ splitLines (bs ++ [10]) = ls ++ [l ++ [10]] := by
+  induction bs with
+  | nil => exact absurd rfl hne
+  | cons b bs ih =>
+    cases bs with
+    | nil =>
+      have hb : b ≠ 10 := by intro e; subst e; simp at hl
+      exact ⟨[], [b], by simp [splitLines, hb], by simp [splitLines, hb]⟩
+    | cons c bs' =>
+      have hl' : (c :: bs').getLast? ≠ some 10 := by simpa [List.getLast?_cons_cons] using hl
+      obtain ⟨ls, l, h1, h2⟩ := ih (by simp) hl'
+      have e : (b :: c :: bs') ++ [10] = b :: ((c :: bs') ++ [10]) := rfl
+      by_cases hb : b = 10
+      · subst hb
+        exact ⟨[10] :: ls, l, by rw [splitLines_cons_lf, h1]; rfl,
+          by rw [e, splitLines_cons_lf, h2]; rfl⟩
+      · cases ls with
+        | nil =>
+          exact ⟨[], b :: l, by rw [splitLines_cons_ne _ _ hb _ _ h1]; rfl,
+            by rw [e, splitLines_cons_ne _ _ hb _ _ h2]; rfl⟩
+        | cons l1 ls1 =>
+          exact ⟨(b :: l1) :: ls1, l, by rw [splitLines_cons_ne _ _ hb _ _ h1]; rfl,
+            by rw [e, splitLines_cons_ne _ _ hb _ _ h2]; rfl⟩
+
+/-- a missing newline at the very end of the file changes nothing -/
+theorem parse_snoc_lf (bs : Bytes) (hne : bs ≠ []) (hl : bs.getLast? ≠ some 10) :
+    parse (bs ++ [10]) = parse bs := by
+  obtain ⟨ls, l, h1, h2⟩ := splitLines_snoc_lf bs hne hl
+  unfold parse runBytes runLines
+  rw [h1, h2, List.foldl_append, List.foldl_append]
+  simp only [List.foldl_cons, List.foldl_nil]
+  cases List.foldl stepLine (St.run {}) ls with
+  | halt o => rfl
+  | run a => simp only [stepLine, procLine, stripEol_snoc_lf]
+
+/-! ### every accepted count fits 64 bits, for every byte string -/
+
+theorem mem_set {κ α : Type} [DecidableEq κ] (m : List (κ × α)) (k : κ) (v : α) (x : κ × α)
+    (h : x ∈ AList.set m k v) : x ∈ m ∨ x = (k, v) := by
+  induction m with
+  | nil => simp [AList.set] at h; exact Or.inr h
+  | cons kv m ih =>
+    obtain ⟨k', w⟩ := kv
+    unfold AList.set at h
+    split at h
+    · rename_i hk
+      simp only [List.mem_cons] at h ⊢
+      rcases h with h | h
+      · right; rw [h, hk]
+      · left; right; exact h
+    · simp only [List.mem_cons] at h ⊢
+      rcases h with h | h
+      · left; left; exact h
+      · rcases ih h with h | h
+        · left; right; exact h
+        · right; exact h
+
+def CovFits (c : Cov) : Prop := ∀ kv ∈ c.lines, kv.2 ≤ U64MAX
+
+def AccFits (a : Acc) : Prop := (∀ r ∈ a.results, CovFits r.2) ∧ CovFits a.cur
+
+def StFits : St → Prop
+  | .run a => AccFits a
+  | .halt (.ok _) => False
+  | .halt _ => True
+
+theorem onFile_fits (a : Acc) (n : Bytes) (h : AccFits a) : AccFits (onFile a n) := by
+  refine ⟨?_, by simp [onFile, CovFits]⟩
+  intro r hr
+  simp only [onFile] at hr
+  split at hr
+  · split at hr
+    · exact h.1 r hr
+    · simp only [List.mem_append, List.mem_singleton] at hr
+      rcases hr with hr | rfl
+      · exact h.1 r hr
+      · exact h.2
+  · exact h.1 r hr
+
+theorem onLcount_fits (a : Acc) (l n : Nat) (h : AccFits a) (hn : n ≤ U64MAX) :
+    AccFits (onLcount a l n) := by
+  refine ⟨h.1, ?_⟩
+  intro kv hkv
+  rcases mem_set _ _ _ _ hkv with hkv | rfl
+  · exact h.2 kv hkv
+  · exact hn
+
+theorem procStripped_fits (a : Acc) (l : Bytes) (h : AccFits a) : StFits (procStripped a l) := by
+  unfold procStripped
+  repeat' split
+  all_goals first
+    | exact (by simp [StFits, invalidRecord] : StFits invalidRecord)
+    | exact (by simp [StFits, parseErr] : StFits parseErr)
+    | exact onFile_fits a _ h
+    | exact onLcount_fits a _ _ h (by unfold U64MAX; omega)
+    | exact onLcount_fits a _ _ h (parseUInt_le _ _ _ (by assumption))
+    | exact h
+
+theorem runLines_fits (s : St) (ls : List Bytes) (h : StFits s) : StFits (runLines s ls) := by
+  unfold runLines
+  induction ls generalizing s with
+  | nil => exact h
+  | cons l ls ih =>
+    apply ih
+    cases s with
+    | halt o => exact h
+    | run a => exact procStripped_fits a _ h
+
+/-- for every byte string: whatever `parse_gcov` accepts, every count it reports fits 64 bits -/
+theorem parse_fits (bs : Bytes) (rs : List (Bytes × Cov)) (h : parse bs = .ok rs) :
+    ∀ r ∈ rs, ∀ kv ∈ r.2.lines, kv.2 ≤ U64MAX := by
+  have hf := runLines_fits (.run {}) (splitLines bs) ⟨by simp, by simp [CovFits]⟩
+  unfold parse runBytes at h
+  generalize runLines (St.run {}) (splitLines bs) = s at h hf
+  cases s with
+  | halt o => simp only [finish] at h; subst h; exact absurd hf (by simp [StFits])
+  | run a =>
+    simp only [finish] at h
+    split at h
+    · cases h; exact hf.1
+    · split at h
+      · cases h
+        intro r hr
+        simp only [List.mem_append, List.mem_singleton] at hr
+        rcases hr with hr | rfl
+        · exact hf.1 r hr
+        · exact hf.2
+      · cases h
+
 /-! ## JSON form -/
 namespace JsonL
 open Grcov.Gcov.Json
@@ -661,6 +973,66 @@ theorem toResults_toJson (d : Doc) (h : d.WF) : toResults d.toJson = .ok (semJso
   have e : (convFile ∘ toFileJ) = semFile := funext convFile_toFileJ
   show Out.ok (List.filterMap convFile (List.map toFileJ d.files)) = _
   rw [List.filterMap_map, e]
+
+/-- an accepted counter fits 64 bits; an integer is taken as it is -/
+theorem asCounter_le (j : Json) (n : Nat) (h : asCounter j = some n) : n ≤ U64MAX := by
+  unfold asCounter at h
+  split at h
+  · split at h <;> simp at h; omega
+  · unfold floatCounter at h
+    split at h
+    · simp at h; omega
+    · split at h
+      · simp at h
+      · split at h <;> (split at h <;> simp at h; omega)
+  · simp at h
+
+theorem asCounter_int (k n : Nat) (h : asCounter (.num (.pos k)) = some n) : n = k := by
+  simp only [asCounter] at h
+  split at h
+  · simp at h; exact h.symm
+  · simp at h
+
+/-- a float above 2^64 is an error, not a wrapped value -/
+theorem asCounter_float_above (m k : Nat) (h : U64MAX + 1 < m * 2 ^ k) :
+    asCounter (.num (.flt false m (.ofNat k))) = none := by
+  have hm : m ≠ 0 := by intro e; subst e; simp at h
+  have : ¬ m * 2 ^ k ≤ U64MAX + 1 := by omega
+  simp [asCounter, floatCounter, hm, this]
+
+theorem asCounter_negative (n : Nat) : asCounter (.num (.neg n)) = none := rfl
+
+/-- key order inside a JSON object does not matter to a struct field -/
+theorem entries_perm {kvs kvs' : List (Bytes × Json)} (p : kvs.Perm kvs') (k : Bytes) :
+    (entries kvs k).Perm (entries kvs' k) := p.filter _
+
+theorem req_perm {β : Type} {kvs kvs' : List (Bytes × Json)} (p : kvs.Perm kvs') (k : Bytes)
+    (dec : Json → Option β) : req kvs k dec = req kvs' k dec := by
+  have hp := entries_perm p k
+  unfold req
+  cases h : entries kvs k with
+  | nil => rw [h] at hp; rw [List.nil_perm.mp hp]
+  | cons x xs =>
+    cases xs with
+    | nil => rw [h] at hp; rw [List.singleton_perm.mp hp]
+    | cons y ys =>
+      rw [h] at hp
+      have hl := hp.length_eq
+      cases h' : entries kvs' k with
+      | nil => simp [h'] at hl
+      | cons x' xs' =>
+        cases xs' with
+        | nil => simp [h'] at hl
+        | cons y' ys' => simp
+
+theorem semJson_names (d : Doc) :
+    (semJson d).map (·.1) = (d.files.filter fun f => !f.lines.isEmpty).map (·.file) := by
+  unfold semJson
+  induction d.files with
+  | nil => rfl
+  | cons f fs ih =>
+    simp only [List.filterMap_cons, List.filter_cons, semFile]
+    cases hl : f.lines.isEmpty <;> simp [ih]
 
 end JsonL
 
